@@ -21,6 +21,13 @@ def summary(e):
 def check(ctx):
     quick = ctx.quick()
     log("== C12 (%s, seed %d): FailedOpIsStutter, RetrySucceeds" % (ctx.tier, ctx.seed))
+    mc = []
+    r = model_check(ctx, "MastFaults.tla", "MC_Faults_q.cfg" if quick else "MC_Faults.cfg", workers=12, heap=8, timeout=1800)
+    states, trans = r["distinct"], r["generated"]
+    mc.append(dict(cfg="MC_Faults", distinct=r["distinct"], generated=r["generated"], wall_s=round(r["wall"], 1)))
+    # the current release's two non-atomic phases must show up as design-level counterexamples (they are the recorded findings)
+    r = model_check(ctx, "MastFaults.tla", "MC_Faults_current.cfg", expect_ok=False, workers=4, heap=4, timeout=600)
+    mc.append(dict(cfg="MC_Faults_current.cfg", expected="counterexample", found=r["error"]))
     drv = build_harness(ctx)
     trace = os.path.join(ctx.scratch, "faults.ndjson")
     run_driver(ctx, drv, ["faults", "-seed", str(ctx.seed), "-n", "150" if quick else "2500", "-budget", "8" if quick else "40", "-out", trace], timeout=3000)
@@ -58,7 +65,7 @@ def check(ctx):
                     "the observation of the tree and the retry; positions come from a dry run that counts the calls; non-trivial = the fault was reached "
                     "and the call returned an error or swallowed it; distinct = distinct (tree, call, fault kind, position)",
                samples=[summary(json.loads(c[0])) for c in chunks[10:13]], exercised=stat,
-               traces_validated_against_impl=len(chunks), exhaustive=False)
+               traces_validated_against_impl=len(chunks), exhaustive=False, states=states, transitions=trans, design_level=mc)
     write_evidence(ctx, "fault_enumeration", cov, ASSUME, nnew)
     log("  %d fault runs (%d distinct), %d returned an error, %d swallowed the fault, %d panicked (not judged), %d violations of C12" % (
         len(chunks), distinct, stat.get("errs", 0), stat.get("swallowed", 0), stat.get("panics", 0), nnew))
